@@ -97,6 +97,23 @@ fn sample_of(plan: &Plan) -> serde_json::Value {
     })
 }
 
+/// the plan whose execution is in progress (for the livelock watchdog)
+static CURRENT: std::sync::Mutex<Option<Plan>> = std::sync::Mutex::new(None);
+
+fn livelock_violation(plan: &Plan, what: &str, secs: u64) -> report::ViolationRec {
+    report::ViolationRec {
+        property: plan.property.clone(),
+        signature: format!("{}/livelock/{}", plan.property, cell_of(plan)),
+        detail: format!(
+            "{what} for {secs} s of wall time while executing this plan: a task of the simulated system is spinning without yielding \
+             (or tasks keep waking each other while no simulated time can pass); the run never gives control back to the simulator"
+        ),
+        count: 1,
+        plan: plan.clone(),
+        ev_hash: 0,
+    }
+}
+
 fn main() {
     rt::init_tracing();
     let args: Vec<String> = std::env::args().collect();
@@ -115,7 +132,26 @@ fn main() {
             let out = opt("--out");
             let deadline_s: f64 = opt("--deadline").and_then(|s| s.parse().ok()).unwrap_or(f64::MAX);
             let t0 = Instant::now();
-            let mut agg = Agg { property: prop.clone(), ..Default::default() };
+            let agg = std::sync::Arc::new(std::sync::Mutex::new(Agg { property: prop.clone(), ..Default::default() }));
+            {
+                // a livelocked run ends the worker: everything aggregated so far plus the livelock violation is written out
+                let (agg, out) = (agg.clone(), out.clone());
+                rt::start_watchdog(move |what, secs| {
+                    let plan = CURRENT.lock().unwrap().clone();
+                    let mut a = agg.lock().unwrap();
+                    if let Some(plan) = plan {
+                        a.violations.push(livelock_violation(&plan, what, secs));
+                        a.evaluations += 1;
+                    }
+                    a.wall_s = t0.elapsed().as_secs_f64();
+                    let json = serde_json::to_string(&*a).unwrap();
+                    match &out {
+                        Some(p) => std::fs::write(p, json).unwrap(),
+                        None => println!("{json}"),
+                    }
+                    std::process::exit(0);
+                });
+            }
             for seed in start..start + count {
                 if t0.elapsed().as_secs_f64() > deadline_s {
                     break;
@@ -124,14 +160,18 @@ fn main() {
                     eprintln!("no generator for {prop}");
                     std::process::exit(2);
                 };
+                *CURRENT.lock().unwrap() = Some(plan.clone());
                 let o = execute(&plan);
+                *CURRENT.lock().unwrap() = None;
+                let mut agg = agg.lock().unwrap();
                 if agg.samples.len() < 2 {
                     agg.samples.push(sample_of(&plan));
                 }
                 agg.add(&plan, &cell_of(&plan), o, flag("--hashes"));
             }
+            let mut agg = agg.lock().unwrap();
             agg.wall_s = t0.elapsed().as_secs_f64();
-            let json = serde_json::to_string(&agg).unwrap();
+            let json = serde_json::to_string(&*agg).unwrap();
             match out {
                 Some(p) => std::fs::write(p, json).unwrap(),
                 None => println!("{json}"),
@@ -148,6 +188,18 @@ fn main() {
                 eprintln!("bad plan: {e}");
                 std::process::exit(2);
             });
+            {
+                let plan = plan.clone();
+                rt::start_watchdog(move |what, secs| {
+                    let v = livelock_violation(&plan, what, secs);
+                    let res = serde_json::json!({
+                        "violations": [{"property": v.property, "signature": v.signature, "detail": v.detail}],
+                        "ev_hash": "livelock", "poll_hash": "livelock", "sim_s": 0.0, "stats": {}, "probes": {},
+                    });
+                    println!("{}", serde_json::to_string(&res).unwrap());
+                    std::process::exit(0);
+                });
+            }
             let o = execute(&plan);
             let res = serde_json::json!({
                 "violations": o.violations,
